@@ -304,6 +304,15 @@ fn run_flavour(prop: &dyn Prop, cfg: &DriverCfg, cases: &[Case], flavour: &str, 
       if timed_out { let _ = st.child.kill(); let _ = st.child.wait(); }
       let mut stderr_txt = String::new();
       if let Some(mut e) = st.child.stderr.take() { use std::io::Read; let mut b = Vec::new(); let _ = e.read_to_end(&mut b); stderr_txt = String::from_utf8_lossy(&b).chars().rev().take(1500).collect::<Vec<_>>().into_iter().rev().collect(); }
+      // the sanitizer writes its report to log_path.<pid>, not to stderr: append the newest report of this shard
+      if flavour == "asan" && !timed_out {
+        if let Ok(rd) = std::fs::read_dir(work) {
+          let prefix = format!("asan.{}.", s);
+          let mut logs: Vec<std::path::PathBuf> = rd.flatten().map(|e| e.path()).filter(|p| p.file_name().and_then(|n| n.to_str()).map(|n| n.starts_with(&prefix)).unwrap_or(false)).collect();
+          logs.sort_by_key(|p| std::fs::metadata(p).and_then(|m| m.modified()).ok());
+          if let Some(last) = logs.last() { if let Ok(t) = std::fs::read_to_string(last) { stderr_txt.push('\n'); stderr_txt.push_str(&t.lines().filter(|l| l.contains("ERROR: AddressSanitizer") || l.contains("SUMMARY") || l.trim_start().starts_with("#0 ") || l.trim_start().starts_with("#1 ")).take(6).collect::<Vec<_>>().join("\n")); let _ = std::fs::remove_file(last); } }
+        }
+      }
       let (ended, open, done) = read_log(&st.log);
       for (k, (o, _)) in ended { results.insert(k, o); }
       if done { shards[s] = None; continue; }
@@ -354,7 +363,14 @@ fn abort_kind(stderr: &str, how: &str) -> String {
   else if stderr.contains("memory allocation of") { "alloc-failure".into() }
   else if stderr.contains("AddressSanitizer") {
     let kind = stderr.lines().find(|l| l.contains("ERROR: AddressSanitizer")).map(|l| l.split("AddressSanitizer:").nth(1).unwrap_or("").trim().split_whitespace().next().unwrap_or("").to_string()).unwrap_or_default();
-    format!("asan-{}", kind)
+    // the function the report is attributed to (SUMMARY ... in <path>), generic arguments stripped
+    let site = stderr.lines().find(|l| l.contains("SUMMARY: AddressSanitizer")).and_then(|l| l.rsplit(" in ").next()).map(|f| {
+      let mut depth = 0; let mut out = String::new();
+      for ch in f.chars() { match ch { '<' => depth += 1, '>' => { if depth > 0 { depth -= 1; } } c if depth == 0 => out.push(c), _ => {} } }
+      let segs: Vec<&str> = out.split("::").filter(|x| !x.is_empty()).collect();
+      segs.iter().rev().take(2).rev().cloned().collect::<Vec<_>>().join("::")
+    }).unwrap_or_default();
+    if site.is_empty() { format!("asan-{}", kind) } else { format!("asan-{}:{}", kind, site.trim()) }
   }
   else { how.to_string() }
 }
